@@ -67,8 +67,8 @@ func drawSequence(t *rapid.T, c *cctx) []wire {
 		kind := weighted(t, "kind", 50, 12, 18, 8, 6, 6)
 		if i == 0 && n > 1 && weighted(t, "prelude", 70, 30) == 0 {
 			// the peer first tells where it is: at or next to the victim's height and round
-			h := pick(t, "pre.h", c.H, c.H, c.H, c.H, c.H, c.H, c.H-1, c.H-1, c.H+1, c.H-2)
-			r := pick(t, "pre.r", c.R, c.R, c.R, c.R, c.R, c.R, c.R-1, c.R+1, 1, 0)
+			h := pick(t, "pre.h", c.fH, c.fH, c.fH, c.fH, c.fH, c.fH, c.fH, c.fH-1, c.fH+1, c.H)
+			r := pick(t, "pre.r", c.fR, c.fR, c.fR, c.fR, c.fR, c.fR, c.fR, c.fR-1, c.fR+1, c.R)
 			w = c.v.roundStepWire(h, r, pick(t, "pre.step", uint32(1), 2, 3, 4, 5, 6, 7, 8))
 			w.desc = "prelude"
 		} else {
@@ -160,6 +160,7 @@ func TestConsensus(t *testing.T) {
 		if c.proposer != v.V && c.proposer >= 0 && rapid.Bool().Draw(t, "attacker-is-proposer") {
 			c.attacker = c.proposer
 		}
+		c.drawFocus(t)
 		ws := drawSequence(t, &c)
 		text := func() string { return "scn=" + sc.String() + " " + wiresText(ws) }
 		info := v.runSequence(t, evReporter(t), ws, text)
